@@ -4,6 +4,7 @@ import (
 	"bytes"
 	"fmt"
 	"math/rand"
+	"net"
 	"os"
 	"os/exec"
 	"path/filepath"
@@ -420,6 +421,8 @@ func (h *c13Hist) client(ci int, seed int64, nops int, burst *sync.WaitGroup, bu
 					time.Sleep(10 * time.Millisecond)
 				}
 				<-done
+			} else if rng.Intn(8) == 0 {
+				h.submitAbort(u, rng.Int63())
 			} else {
 				h.submit(u)
 			}
@@ -496,6 +499,35 @@ func (h *c13Hist) submitSlow(u *c13Unit, seed int64) {
 		u.mu.Unlock()
 	}
 	h.count("submit-slow:" + u.Kind)
+}
+
+// submitAbort starts a submit and breaks the connection during the stdin phase in a way the daemon sees as an
+// error, not as the end of the input: the client closes its unix socket while the acknowledgement line is still
+// unread in its receive queue, so the daemon's next read fails with ECONNRESET. The unit must end Failed and
+// must never be started (observed through the status-write log, which covers units the harness has no id for).
+func (h *c13Hist) submitAbort(u *c13Unit, seed int64) {
+	rng := rand.New(rand.NewSource(seed))
+	c, err := net.DialTimeout("unix", h.L.Sock(), 5*time.Second)
+	if err != nil {
+		return
+	}
+	node := "l"
+	if u.Remote {
+		node = "r"
+	}
+	// the greeting line is read, the acknowledgement is not
+	_ = c.SetDeadline(time.Now().Add(10 * time.Second))
+	buf := make([]byte, 512)
+	_, _ = c.Read(buf)
+	part := u.Payload
+	if len(part) > 1 {
+		part = part[:1+rng.Intn(len(part)-1)]
+	}
+	_, _ = c.Write([]byte(fmt.Sprintf("work submit %s gen\n", node)))
+	_, _ = c.Write(part)
+	time.Sleep(time.Duration(20+rng.Intn(200)) * time.Millisecond)
+	_ = c.Close()
+	h.count("submit-aborted-with-reset:" + u.Kind)
 }
 
 // Delay configurations that widen the race windows between the daemon's and the runner's
